@@ -2,7 +2,7 @@
 # usage: tools_try_refac.sh <id> [C19] : applies the behaviour-preserving refactor (/tmp/refac/<id>/OUT/patch.diff, else /verif/refactors/<id>/patch.diff) to /repo, runs the checks (C19 only when named), reverts.
 # Any VIOLATION here is a false alarm of the machinery (the refactor keeps behaviour and passes the suite).
 id=$1
-p=/tmp/refac/$id/OUT/patch.diff; [ -f $p ] || p=/verif/refactors/$id/patch.diff; git -C /repo apply $p || { echo "patch does not apply"; exit 3; }
+p=/tmp/refac3/$id/OUT/patch.diff; [ -f $p ] || p=/tmp/refac/$id/OUT/patch.diff; [ -f $p ] || p=/verif/refactors/$id/patch.diff; git -C /repo apply $p || { echo "patch does not apply"; exit 3; }
 cd /verif
 for c in C01 C02 C03 C04 C05 C06 C07 C08 C09 C10 C11 C12 C13 C14 C15 C16 C17 C18 C20 $2; do
   out=$(./check $c 2>&1); rc=$?
